@@ -24,3 +24,24 @@ Theorem C05_source_tie : forall t f, TScal t -> scalar_fn f = true -> exists t',
 Proof. exact tie_execute. Qed.
 Check C05_source_tie : forall t f, TScal t -> scalar_fn f = true -> exists t', execute t f = Ok t' /\ g_execute (zabs t) f = Some (zabs t', true).
 Print Assumptions C05_source_tie.
+
+From Avt Require Import Proofs.ModeSem.
+(** Proofs/ModeSem.v: mode lists *)
+(** DECSET with a LIST of modes is the fold of the one-mode commands (likewise DECRST / SM / RM: execute_decrst_run, execute_sm_run, execute_rm_run in Proofs/ModeSem.v), so every clause stated for `Decset [m]` applies inside lists such as CSI ?6;7h *)
+Theorem C05_mode_lists : forall ms t, execute t (Decset ms) = foldM (fun t1 m => execute t1 (Decset [m])) ms t.
+Proof. exact execute_decset_run. Qed.
+Check C05_mode_lists : forall ms t, execute t (Decset ms) = foldM (fun t1 m => execute t1 (Decset [m])) ms t.
+Print Assumptions C05_mode_lists.
+
+(** DECOM inside a list still homes the cursor (when no later mode of the list moves it again) *)
+Theorem C05_origin_in_list : forall ms1 ms2 t t', no_switch ms2 -> execute t (Decset (ms1 ++ Origin :: ms2)) = Ok t' -> org t' = true /\ cur_col t' = 0 /\ cur_row t' = top t /\ pend t' = false /\ top t' = top t.
+Proof. exact decset_origin_last. Qed.
+Check C05_origin_in_list : forall ms1 ms2 t t', no_switch ms2 -> execute t (Decset (ms1 ++ Origin :: ms2)) = Ok t' -> org t' = true /\ cur_col t' = 0 /\ cur_row t' = top t /\ pend t' = false /\ top t' = top t.
+Print Assumptions C05_origin_in_list.
+
+(** toggling origin mode homes the cursor - exact *)
+Theorem C05_origin_set : forall t, execute t (Decset [Origin]) = Ok (spec_home (t <| org := true |>)).
+Proof. exact sem_origin_set. Qed.
+Check C05_origin_set : forall t, execute t (Decset [Origin]) = Ok (spec_home (t <| org := true |>)).
+Print Assumptions C05_origin_set.
+
